@@ -274,6 +274,16 @@ def mutual_recursion(V):
 
 # ------------------------------------------------------------------ system: constrained forward field, same name twice, functions, locals
 MISC_FWD = HEAD + '''
+def makefn@@():
+    @utype.parse
+    def lf(item: 'C@@', *rest: 'Pos@@', **extra: 'Pos@@') -> 'Pos@@':
+        return item.p + sum(rest) + sum(extra.values())
+    return lf
+
+
+lf@@ = makefn@@()
+
+
 class C@@(Schema):
     p: 'Pos@@' = Field(le=10)
     q: 'Pos@@' = Field(le=5, default=1)
@@ -312,6 +322,16 @@ def fn@@(item: C@@, n: Pos@@ = 1) -> Pos@@:
     return item.p + n
 
 
+def makefn@@():
+    @utype.parse
+    def lf(item: C@@, *rest: Pos@@, **extra: Pos@@) -> Pos@@:
+        return item.p + sum(rest) + sum(extra.values())
+    return lf
+
+
+lf@@ = makefn@@()
+
+
 def make@@():
     class Local2(Schema):
         v: int = Field(ge=0, default=0)
@@ -346,6 +366,16 @@ def _misc(V, target):
                 d['both'] = [num(V, 'b%d' % i, -2, 12) for i in range(V.pick('n_both', [1, 2, 3] if V.thorough else [1, 2]))]
             r1, r2 = outcome(getattr(fwd, 'C%d' % n1), **d), outcome(getattr(direct, 'C%d' % n2), **d)
             V.check(r1 == r2, 'forward:differs:constrained-field', lambda: 'C(**%r): forward %r ; direct %r' % (d, r1, r2))
+        elif target == 'local-function':
+            item = {'p': num(V, 'p')}
+            rest = [num(V, 'r%d' % i) for i in range(V.pick('n_rest', [0, 1, 2] if V.thorough else [0, 1]))]
+            extra = {'k': num(V, 'k')} if V.bool('has_extra') else {}
+            out = []
+            for mod, n in ((fwd, n1), (direct, n2)):
+                f = getattr(mod, 'lf%d' % n)
+                out.append([outcome(f, item, *rest, **extra), outcome(f, item, *rest, **extra)])
+            V.check(out[0] == out[1], 'forward:differs:local-function',
+                    lambda: 'lf(%r, *%r, **%r) called twice: forward %r ; direct %r' % (item, rest, extra, out[0], out[1]))
         elif target == 'function':
             item = {'p': num(V, 'p')}
             n = num(V, 'n')
@@ -371,10 +401,11 @@ def _misc(V, target):
         unload(fwd, direct)
 
 
-for _t in ('class', 'function', 'local'):
+for _t in ('class', 'function', 'local', 'local-function'):
     ob('misc/' + _t, marks=[_t], budget=(150, 400),
        bounds="the same forward name in several constrained annotations ('Pos' = Field(le=10), 'Pos' = Field(le=5), List['Pos']), a "
-              "decorated function with forward-referenced parameter / default / return types, and function-local classes (self reference "
+              "decorated function with forward-referenced parameter / default / return types, a function-local decorated function (parameter, *args, **kwargs and return "
+              "types naming module-level classes defined later; called twice), and function-local classes (self reference "
               'and a module-level name defined later, created twice) -- target %s; solver-chosen call order and inputs (ints in -3..3 / '
               '"3" / "x"); same outcome as the direct declarations' % _t)((lambda t: lambda V: _misc(V, t))(_t))
 
